@@ -229,7 +229,9 @@ class cc_ptlr:
     modifies = ("ncols", "cursor", "left_off")
 
     def requires(s, a):
-        return both(s.ncols + imin(a.left, 0) + imin(a.right, 0) >= 0, either(both(a.left <= 0, a.right <= 0), neg(s.noshards)))
+        # shards_trim_sides rejects a trim to zero columns (ValueError): trimming must leave a column
+        kept = s.ncols + imin(a.left, 0) + imin(a.right, 0)
+        return both(kept >= 0, implies(either(a.left < 0, a.right < 0), kept > 0), either(both(a.left <= 0, a.right <= 0), neg(s.noshards)))
 
     def ensures(old, s, a, result):
         yield "cols", s.ncols == old.ncols + a.left + a.right
